@@ -56,6 +56,11 @@ func (ds *Storage) readBlobs(ctx context.Context, opts readBlobRequest) error {
 	dirFullPath := filepath.Join(opts.dirRoot, opts.pathInto)
 	names, err := ds.fs.ReadDirNames(dirFullPath)
 	if err != nil {
+		if opts.pathInto != "" && errors.Is(err, os.ErrNotExist) {
+			// A subdirectory that was empty and got cleaned up (see
+			// below) since its parent was read.
+			return nil
+		}
 		return &enumerateError{"readdirnames of " + dirFullPath, err}
 	}
 	if len(names) == 0 {
